@@ -243,7 +243,13 @@ impl PhoneticSuggestion {
 
             // Auto Correct item.
             if let Some(correct) = self.search_corrected(string.word(), data) {
-                let corrected = self.phonetic.convert(correct);
+                // An entry of the user which is not written in the phonetic (ASCII)
+                // notation, e.g. Bengali text, can't be converted and is used as it is.
+                let corrected = if correct.is_ascii() {
+                    self.phonetic.convert(correct)
+                } else {
+                    correct.to_owned()
+                };
                 // Treat it as the first priority.
                 suggestions.push(Rank::first_ranked(corrected));
             }
